@@ -135,9 +135,24 @@ def r1(ctx, facts):
                     gb = facts.body(g)
                     if not gb:
                         continue
+                    gadt = facts.adts.get(base_ty(gb.self_ty or "")) or {}
+                    gfields = {f["name"]: f["ty"] for v in gadt.get("variants", []) for f in v["fields"]}
                     for gbb, gt in gb.calls():
                         if any(isinstance(a, dict) and str(a.get("ty", "")).startswith("&mut hibitset::BitSet") for a in gt["args"]) and \
                                 gt["callee"].get("path") != "hibitset::BitSet::clear":
+                            # a guard that puts the taken mask back EMPTIED is the same mechanism made explicit (benign C08-s1, C19-s1:
+                            # `self.taken.clear(); mem::swap(self.slot, &mut self.taken)`): the value swapped / moved into the slot is a by-value
+                            # BitSet field of the guard that a BitSet::clear of that very field dominates inside the guard's drop
+                            vals = []
+                            for a in gt["args"]:
+                                o = gb.operand_origin(a) if isinstance(a, dict) else None
+                                if o and o[0] == "param" and o[1] == 1 and o[2] and not str(gfields.get(o[2][0], "&")).startswith("&"):
+                                    vals.append(o)
+                            clears = [cb for cb, ct2 in gb.calls() if ct2["callee"].get("path") == "hibitset::BitSet::clear" and ct2["args"] and
+                                      gb.arg_origin(cb, 0) in vals]
+                            if gt["callee"].get("name") in ("swap", "replace") and "mem::" in (gt["callee"].get("path") or "") and len(vals) == 1 and \
+                                    clears and gbb not in gb.reachable(0, stop=clears):
+                                continue
                             bad.append("%s (drop guard %s)" % (gb.term(gbb)["line"], g))
                     for sbb, si, dst, rv, line in gb.stores():
                         if "BitSet" in str(rv.get("ops", [{}])[0].get("ty", "")) if rv.get("ops") else False:
